@@ -199,7 +199,11 @@ impl TcpFlow {
 
         let mut sorted_data = data.clone();
 
-        sorted_data.sort_by_key(|tcp_data| tcp_data.sequence);
+        // Order by distance from the first stored segment in sequence space (signed, modulo 2^32),
+        // not by the raw number: a stream that crosses the 2^32 wrap has numerically smaller
+        // sequence numbers for its later bytes.
+        let base = data.first().map(|tcp_data| tcp_data.sequence).unwrap_or(0);
+        sorted_data.sort_by_key(|tcp_data| tcp_data.sequence.wrapping_sub(base) as i32);
 
         let mut full_data = Vec::new();
         for tcp_data in sorted_data {
